@@ -61,6 +61,8 @@ class LazyContourList(object):
                 except BaseException as e:
                     e.args = (f"Event {idx}, {e.args[0]}",)
                     raise
+                # the cached contour is handed out to the user
+                cont.setflags(write=False)
             else:
                 # Get the contour from deque
                 cont = self.contours[idx_q]
